@@ -60,7 +60,9 @@ def _case(draw, max_n, f32, routines=("newton", "newton", "eigh", "eigh", "lobpc
       "n": n, "pad": pad, "p": draw(st.integers(1, 8)), "routine": routine, "k": k,
       "rel": rel, "eps_rel": eps_rel, "rank": rank,
       "shape": draw(st.sampled_from(SHAPES)), "log_kappa": round(log_kappa, 2),
-      "log_scale": draw(st.sampled_from([-6, -3, -1, 0, 0, 1, 3, 6])),
+      # "any scale": -8 puts lambda_max below power_iteration's absolute exit tolerance (1e-6), where the
+      # estimate is the start vector's Rayleigh quotient after a single step
+      "log_scale": draw(st.sampled_from([-8, -6, -3, -1, 0, 0, 1, 3, 6])),
       "seed": draw(st.integers(0, 2**16)), "f32": f32,
       "allpad": draw(st.sampled_from([False] * 15 + [True])),
   }
